@@ -168,6 +168,23 @@ def cli_family(pid, tier, chk):
     traces, inputs = DC.cli_traces(chk, plans, fmts=("json", "json", "yaml", "ini"), sub_every=8 if quick else 3)
     chk.rules.append("%d TLC-enumerated CLI plans materialised as real files + argv and run through json_to_models.cli.main() with "
                      "recording wrappers (file loaders, validate, set_args, generate, generate_code, open, write, print)" % len(plans))
+    if pid == "C16":
+        # option vectors enumerated by TLC, each on a fixed fault-free plan
+        vecs = DC.mc_opts(chk)
+        chk.exhaustive_parts.append("MC_Opts: %d option vectors" % len(vecs))
+        chk.rng.shuffle(vecs)
+        vecs = vecs[: (120 if quick else 2500)]
+        plan = {"args": [{"flag": "m", "model": "A", "kind": "list", "share": False, "alias": False, "ids": [11, 12]},
+                         {"flag": "m", "model": "A", "kind": "object", "share": False, "alias": False, "ids": [21]},
+                         {"flag": "l", "model": "B", "kind": "lookup", "share": False, "alias": False, "ids": [31]}], "out": "none", "fault": "none"}
+        t2, i2 = [], {}
+        for k, o in enumerate(vecs):
+            evs, inp = DC.run_plan(dict(plan, out=("none", "absent")[k % 2]), DC.option_set(o), chk.rng, "json", sub=(k % (10 if quick else 4) == 0))
+            t2.append({"id": "opt%d" % k, "events": evs})
+            i2["opt%d" % k] = dict(inp, options=o)
+        traces += t2
+        inputs.update(i2)
+        chk.rules.append("%d TLC-enumerated option vectors spelled as argv and as library calls" % len(vecs))
     chk.validate("Trace_Cli", traces, inputs, shard=40)
 
 
